@@ -21,8 +21,8 @@ CONSTANTS Streams,    \* set of streams; a stream is a sequence of message kinds
 VARIABLES stream, fed, delivered, nreads, last, hist
 vars == <<stream, fed, delivered, nreads, last, hist>>
 
-RECURSIVE SumTo(_, _)
-SumTo(s, i) == IF i = 0 THEN 0 ELSE SumTo(s, i - 1) + LenOf[s[i]]
+\* (a fold, not a recursive definition: streams of several hundred messages would exhaust TLC's stack)
+SumTo(s, i) == FoldLeft(LAMBDA a, k : a + LenOf[k], 0, SubSeq(s, 1, i))
 Total(s) == SumTo(s, Len(s))
 End(i) == SumTo(stream, i)
 \* number of messages wholly contained in the first n bytes
